@@ -10,6 +10,7 @@ package main
 
 import (
 	"fmt"
+	"go/constant"
 	"go/token"
 	"go/types"
 	"sort"
@@ -829,6 +830,171 @@ func (p *prov) ClassifyAt(v ssa.Value, b *ssa.BasicBlock) labelSet {
 // refineEdge: the value flows along the CFG edge from->to; if `from` ends in a
 // branch on (v == *G) and `to` is reached only on the not-equal outcome of that
 // branch, the singleton label is dropped.
+// predicateExcludes: fn is a small in-package predicate `func(p *T) bool` whose
+// result is definitely false whenever p == *G for a package-level G (e.g.
+// `return pl != nil && pl != emptyPostingsList`).  Returns the parameter index
+// and the globals excluded by a true result.
+var predicateCache = map[*ssa.Function]map[int][]*ssa.Global{}
+
+func predicateExcludes(fn *ssa.Function) map[int][]*ssa.Global {
+	if r, ok := predicateCache[fn]; ok {
+		return r
+	}
+	out := map[int][]*ssa.Global{}
+	predicateCache[fn] = out
+	if fn == nil || fn.Blocks == nil || len(fn.Blocks) > 12 || fn.Signature.Results().Len() != 1 || !isBoolType(fn.Signature.Results().At(0).Type()) {
+		return out
+	}
+	type cmp struct {
+		pi int
+		g  *ssa.Global
+	}
+	var cmps []cmp
+	isCmp := func(v ssa.Value, pi int, g *ssa.Global) (neg bool, ok bool) {
+		bin, isBin := v.(*ssa.BinOp)
+		if !isBin || (bin.Op != token.EQL && bin.Op != token.NEQ) {
+			return false, false
+		}
+		a, b := bin.X, bin.Y
+		if a != ssa.Value(fn.Params[pi]) {
+			a, b = b, a
+		}
+		if a != ssa.Value(fn.Params[pi]) {
+			return false, false
+		}
+		ld, isLd := b.(*ssa.UnOp)
+		if !isLd || ld.Op != token.MUL || ld.X != ssa.Value(g) {
+			return false, false
+		}
+		return bin.Op == token.NEQ, true
+	}
+	for _, b := range fn.Blocks {
+		for _, ins := range b.Instrs {
+			bin, ok := ins.(*ssa.BinOp)
+			if !ok || (bin.Op != token.EQL && bin.Op != token.NEQ) {
+				continue
+			}
+			for pi, prm := range fn.Params {
+				for _, side := range []ssa.Value{bin.X, bin.Y} {
+					if ld, ok := side.(*ssa.UnOp); ok && ld.Op == token.MUL {
+						if g, ok := ld.X.(*ssa.Global); ok && (bin.X == ssa.Value(prm) || bin.Y == ssa.Value(prm)) {
+							cmps = append(cmps, cmp{pi, g})
+						}
+					}
+				}
+			}
+		}
+	}
+	for _, cm := range cmps {
+		// assume p == *G; every reachable return must return false
+		var eval func(v ssa.Value, path []*ssa.BasicBlock) tri
+		eval = func(v ssa.Value, path []*ssa.BasicBlock) tri {
+			if neg, ok := isCmp(v, cm.pi, cm.g); ok {
+				if neg {
+					return triFalse
+				}
+				return triTrue
+			}
+			switch x := v.(type) {
+			case *ssa.Const:
+				if x.Value != nil && x.Value.Kind() == constant.Bool {
+					if constant.BoolVal(x.Value) {
+						return triTrue
+					}
+					return triFalse
+				}
+			case *ssa.UnOp:
+				if x.Op == token.NOT {
+					return triNot(eval(x.X, path))
+				}
+			case *ssa.Phi:
+				for i := len(path) - 1; i > 0; i-- {
+					if path[i] == x.Block() {
+						for k, pr := range x.Block().Preds {
+							if pr == path[i-1] {
+								return eval(x.Edges[k], path[:i])
+							}
+						}
+					}
+				}
+			}
+			return triUnknown
+		}
+		okAll, nret := true, 0
+		var walk func(b *ssa.BasicBlock, path []*ssa.BasicBlock)
+		walk = func(b *ssa.BasicBlock, path []*ssa.BasicBlock) {
+			if len(path) > 24 || !okAll {
+				okAll = okAll && len(path) <= 24
+				return
+			}
+			path = append(path, b)
+			switch last := b.Instrs[len(b.Instrs)-1].(type) {
+			case *ssa.Return:
+				nret++
+				if eval(last.Results[0], path) != triFalse {
+					okAll = false
+				}
+			case *ssa.If:
+				switch eval(last.Cond, path) {
+				case triTrue:
+					walk(b.Succs[0], path)
+				case triFalse:
+					walk(b.Succs[1], path)
+				default:
+					walk(b.Succs[0], path)
+					walk(b.Succs[1], path)
+				}
+			default:
+				for _, s := range b.Succs {
+					walk(s, path)
+				}
+			}
+		}
+		walk(fn.Blocks[0], nil)
+		if okAll && nret > 0 {
+			dup := false
+			for _, g := range out[cm.pi] {
+				if g == cm.g {
+					dup = true
+				}
+			}
+			if !dup {
+				out[cm.pi] = append(out[cm.pi], cm.g)
+			}
+		}
+	}
+	return out
+}
+
+// predicateEdge: cond is (possibly negated) a call of such a predicate on v;
+// returns the globals v cannot be on the edge from -> to.
+func predicateEdge(cond ssa.Value, v ssa.Value, trueEdge bool) []*ssa.Global {
+	neg := false
+	for {
+		u, ok := cond.(*ssa.UnOp)
+		if !ok || u.Op != token.NOT {
+			break
+		}
+		neg = !neg
+		cond = u.X
+	}
+	call, ok := cond.(*ssa.Call)
+	if !ok || call.Call.StaticCallee() == nil {
+		return nil
+	}
+	if trueEdge == neg {
+		return nil // the predicate is false on this edge
+	}
+	ex := predicateExcludes(call.Call.StaticCallee())
+	var out []*ssa.Global
+	for pi, gs := range ex {
+		if pi < len(call.Call.Args) && call.Call.Args[pi] == v {
+			out = append(out, gs...)
+		}
+	}
+	return out
+}
+
 func (p *prov) refineEdge(v ssa.Value, from, to *ssa.BasicBlock, l labelSet) labelSet {
 	if len(l) == 0 || len(from.Instrs) == 0 {
 		return l
@@ -836,6 +1002,23 @@ func (p *prov) refineEdge(v ssa.Value, from, to *ssa.BasicBlock, l labelSet) lab
 	ifi, ok := from.Instrs[len(from.Instrs)-1].(*ssa.If)
 	if !ok {
 		return l
+	}
+	if from.Succs[0] != from.Succs[1] {
+		if gs := predicateEdge(ifi.Cond, v, to == from.Succs[0]); len(gs) > 0 {
+			out := labelSet{}
+			for k, w := range l {
+				keep := true
+				for _, g := range gs {
+					if k == "Global:"+g.Name() {
+						keep = false
+					}
+				}
+				if keep {
+					out[k] = w
+				}
+			}
+			return out
+		}
 	}
 	bin, ok := ifi.Cond.(*ssa.BinOp)
 	if !ok || (bin.Op != token.EQL && bin.Op != token.NEQ) {
@@ -878,6 +1061,38 @@ func (p *prov) refineAt(v ssa.Value, b *ssa.BasicBlock, l labelSet) labelSet {
 	}
 	var drop []string
 	for _, ref := range *v.Referrers() {
+		if call, isCall := ref.(*ssa.Call); isCall && call.Referrers() != nil {
+			// v handed to a predicate helper whose true result excludes a global
+			var conds []struct {
+				val ssa.Value
+			}
+			conds = append(conds, struct{ val ssa.Value }{call})
+			for _, r2 := range *call.Referrers() {
+				if u, ok := r2.(*ssa.UnOp); ok && u.Op == token.NOT {
+					conds = append(conds, struct{ val ssa.Value }{u})
+				}
+			}
+			for _, cd := range conds {
+				if cd.val.Referrers() == nil {
+					continue
+				}
+				for _, r3 := range *cd.val.Referrers() {
+					ifi, ok := r3.(*ssa.If)
+					if !ok {
+						continue
+					}
+					for si, succ := range ifi.Block().Succs {
+						gs := predicateEdge(ifi.Cond, v, si == 0)
+						if len(gs) > 0 && len(succ.Preds) == 1 && succ.Dominates(b) {
+							for _, g := range gs {
+								drop = append(drop, "Global:"+g.Name())
+							}
+						}
+					}
+				}
+			}
+			continue
+		}
 		bin, ok := ref.(*ssa.BinOp)
 		if !ok || (bin.Op != token.EQL && bin.Op != token.NEQ) {
 			continue
